@@ -291,9 +291,11 @@ def body_constant(case, stats):
     except (ValueError, RuntimeError):
         stats.cls("probe_not_solved")
         return
+    pmax = max([abs(x) for x in da["Power (W)"].tolist() if isinstance(x, float)] + [1e-300])
     for ra, rb in zip(da.to_dict("records"), db.to_dict("records")):
         for col in ra:
-            if not cell_eq(ra[col], rb[col], rel=1e-9, abs_=1e-15):
+            # (Loss = P*(1-eff): absolute tolerance relative to the power, eff = 1-1e-16 exists)
+            if not cell_eq(ra[col], rb[col], rel=1e-9, abs_=1e-12 * pmax):
                 raise Fail("constant.differs",
                            "all-{} table vs constant: row {!r} column {!r}: {!r} vs {!r}".format(
                                c, ra["Component"], col, ra[col], rb[col]))
